@@ -125,6 +125,7 @@ class FD(dict):
         self.curv = {}
         self.noise = {}  # {of: scatter of the output under 1e-13 relative perturbations of all inputs} (round-off level of the function itself)
         self.h = {}  # {wrt: finest step used per column}
+        self.fmag = {}  # {of: |output| at the nominal point}
 
 
 def fd_jacobian(q, rel=1e-3, skip=None, max_cols=None, rng=None):
@@ -159,7 +160,8 @@ def fd_jacobian(q, rel=1e-3, skip=None, max_cols=None, rng=None):
     f00 = f()
     nrng = np.random.default_rng(12345)
     saved = {w: I.raw(w).copy() for w in c._inputs}
-    dirs = {w: nrng.uniform(0.5, 1.0, saved[w].shape) for w in c._inputs}
+    # perturbation directions in the units of the difference steps (so that exact zeros are probed too)
+    dirs = {w: nrng.uniform(0.5, 1.0, saved[w].shape) * _steps(saved[w], 1.0) for w in c._inputs}
     # (a) scatter under perturbations in the 13th digit; (b) fourth differences along a line at three relative spacings (Hamming /
     # More-Wild noise estimate: the smooth part cancels, a staircase or jitter of the computed function remains)
     eta = np.zeros_like(f00)
@@ -173,7 +175,7 @@ def fd_jacobian(q, rel=1e-3, skip=None, max_cols=None, rng=None):
         line = []
         for j in range(7):
             for w in c._inputs:
-                I.raw(w)[...] = saved[w] * (1.0 + delta * j * dirs[w])
+                I.raw(w)[...] = saved[w] + delta * j * dirs[w]
             with np.errstate(all="ignore"):
                 line.append(f())
         d4 = np.diff(np.array(line), n=4, axis=0)
@@ -186,6 +188,7 @@ def fd_jacobian(q, rel=1e-3, skip=None, max_cols=None, rng=None):
     r0 = 0
     for n, sz in zip(onames, osizes):
         res.noise[n] = eta[r0:r0 + sz].copy()
+        res.fmag[n] = np.abs(f00[r0:r0 + sz])
         r0 += sz
     for w in c._inputs:
         x = I.raw(w)
@@ -233,38 +236,48 @@ def fd_jacobian(q, rel=1e-3, skip=None, max_cols=None, rng=None):
         s0, s2 = side[0], side[2]
         hlast = np.full(x.size, np.nan)
         hlast[active] = h.ravel()[active] / 4.0
-        # a column whose extrapolation has not settled relative to the column's own size is outside the asymptotic range of the step
-        # (e.g. a stiffness entry perturbed by far more than its own magnitude): halve its steps twice more, up to three times; a column
-        # that never settles does not decide
+        # a column whose extrapolation has not settled to the accuracy the comparison works at (1e-6 of the column's own size) is
+        # outside the asymptotic range of its step (a stiffness entry perturbed by far more than its own magnitude; a stress whose
+        # sign changes inside the stencil, where sqrt(s^2 + ..) bends sharply): its steps are halved twice more, up to three times,
+        # as long as that improves the error bar (round-off takes over eventually); a column that never gets within 2 % does not decide
         big = np.nanmax(np.abs(est), initial=0.0)
-        lev = 3
-        for _round in range(3):
+
+        def col_stats():
             with np.errstate(invalid="ignore"):
-                colmax = np.nanmax(np.abs(est), axis=0, initial=0.0) if est.size else np.zeros(x.size)
-                colerr = np.nanmax(np.where(np.isfinite(err), err, 0.0), axis=0, initial=0.0) if est.size else np.zeros(x.size)
-            redo = [i for i in active if colmax[i] > 1e-9 * big and colerr[i] > 0.02 * colmax[i]]
+                cm = np.nanmax(np.abs(est), axis=0, initial=0.0) if est.size else np.zeros(x.size)
+                ce = np.nanmax(np.where(np.isfinite(err), err, 0.0), axis=0, initial=0.0) if est.size else np.zeros(x.size)
+            return cm, ce
+
+        lev = 3
+        frozen = set()
+        last = Js[-1]
+        for _round in range(3):
+            colmax, colerr = col_stats()
+            redo = [i for i in active if i not in frozen and colmax[i] > 1e-9 * big and colerr[i] > 1e-6 * colmax[i]]
             if not redo:
                 break
             Ja, Sa = level(lev, redo)
             Jb, Sb = level(lev + 1, redo)
-            prev = Js[-1]
-            e2, r2 = extrapolate(prev[:, redo], Ja[:, redo], Jb[:, redo])
-            est[:, redo], err[:, redo] = e2, r2
-            s0[:, redo], s2[:, redo] = side[-1][:, redo], Sb[:, redo]
-            hlast[redo] = h.ravel()[redo] / 2 ** (lev + 1)
-            nxt = prev.copy()
-            nxt[:, redo] = Jb[:, redo]
-            Js.append(nxt)
-            sd = side[-1].copy()
-            sd[:, redo] = Sb[:, redo]
-            side.append(sd)
-            lev += 2
-        else:
+            e2, r2 = extrapolate(last[:, redo], Ja[:, redo], Jb[:, redo])
             with np.errstate(invalid="ignore"):
-                colmax = np.nanmax(np.abs(est), axis=0, initial=0.0)
-                colerr = np.nanmax(np.where(np.isfinite(err), err, 0.0), axis=0, initial=0.0)
-            bad = [i for i in active if colmax[i] > 1e-9 * big and colerr[i] > 0.02 * colmax[i]]
-            err[:, bad] = np.inf
+                newerr = np.nanmax(np.where(np.isfinite(r2), r2, 0.0), axis=0, initial=0.0)
+            nxt = last.copy()
+            for k_, i in enumerate(redo):
+                with np.errstate(invalid="ignore"):
+                    better = r2[:, k_] < err[:, i]  # entry by entry: rows of one column can differ widely in curvature
+                if better.any():
+                    est[better, i], err[better, i] = e2[better, k_], r2[better, k_]
+                    s0[better, i] = (side[-1][:, i] if lev == 3 else s2[:, i])[better]
+                    s2[better, i] = Sb[better, i]
+                    hlast[i] = h.ravel()[i] / 2 ** (lev + 1)
+                    nxt[:, i] = Jb[:, i]
+                if not (better & (r2[:, k_] < 0.5 * np.where(np.isfinite(err[:, i]), err[:, i], np.inf) + 0)).any() and not better.any():
+                    frozen.add(i)  # nothing improves any more: round-off has taken over
+            last = nxt
+            lev += 2
+        colmax, colerr = col_stats()
+        bad = [i for i in active if colmax[i] > 1e-9 * big and colerr[i] > 0.02 * colmax[i]]
+        err[:, bad] = np.inf
         f()  # restore outputs at the nominal point
         # smooth: the one-sided mismatch is h*f'' and falls by 4 between h and h/4; at a kink it stays
         kink = (s2 > 0.5 * s0) & (s2 > 1e-4 * np.maximum(np.nanmax(np.abs(est), initial=0.0), 1e-300))
@@ -311,7 +324,9 @@ def compare(o, fam, rep, fd, cls_name, tags=(), rtol=1e-6, nonsmooth_frac=0.02, 
         if of in getattr(fd, "noise", {}) and wrt in getattr(fd, "h", {}):
             # finite differences cannot resolve the function below its own round-off level divided by the step
             with np.errstate(invalid="ignore", divide="ignore"):
-                nf = 10.0 * np.asarray(fd.noise[of]).ravel()[:, None] / np.asarray(fd.h[wrt]).ravel()[None, :]
+                # (measured round-off level of the function, and never less than the resolution of double precision itself)
+                lvl = np.maximum(np.asarray(fd.noise[of]).ravel(), np.finfo(float).eps * np.asarray(fd.fmag.get(of, 0.0)).ravel())
+                nf = 10.0 * lvl[:, None] / np.asarray(fd.h[wrt]).ravel()[None, :]
             tol = tol + np.where(np.isfinite(nf), nf, 0.0).reshape(est.shape)
         if fd_step is not None and (of, wrt) in getattr(fd, "curv", {}):
             # the component itself declares one-sided finite-difference partials with step fd_step: their truncation error is
